@@ -199,7 +199,7 @@ pub fn record(seed: u64, tier: &str, out: &str) {
         show_tables::<251>(&mut t);
     }
     let tabs = t.events;
-    let n = if thorough { 40_000 } else { 1000 };
+    let n = if thorough { 40_000 } else { 2500 };
     big::<998244353>(&mut rng, &mut t, n);
     big::<1000000007>(&mut rng, &mut t, n);
     big::<2147483647>(&mut rng, &mut t, n); // 2^31 - 1 (prime)
